@@ -464,8 +464,8 @@ func c08Run(ctx *core.Ctx) {
 			out = append(out, o)
 		})
 		if len(names) > 0 {
-			out = append(out, names[:len(names)-1])                                  // too short
-			out = append(out, append(append([]string{}, names...), "zz"))             // too long
+			out = append(out, names[:len(names)-1])                                      // too short
+			out = append(out, append(append([]string{}, names...), "zz"))                // too long
 			out = append(out, append(append([]string{}, names[:len(names)-1]...), "zz")) // unknown name
 			if len(names) > 1 {
 				d := append([]string{}, names...)
@@ -476,8 +476,8 @@ func c08Run(ctx *core.Ctx) {
 		return out
 	}
 	type enumVariant struct {
-		col  string
-		vals []string
+		col   string
+		vals  []string
 		isNil bool
 	}
 	enumVariants := []enumVariant{
@@ -630,6 +630,7 @@ func c08Run(ctx *core.Ctx) {
 func init() {
 	core.Register(&core.Check{
 		ID:    "C08",
+		Setup: func() { c08ProjEnv() },
 		Level: "model_checking",
 		Rule: "case = New input (column map over names a,b,c with every data kind incl. Const* and unsupported types, every length combination from {0,1,3}, every ColumnOrder variant: none/all permutations/too short/too long/unknown/duplicate, every Enums variant: none/nil/empty/covering/non-covering/missing column/other column), " +
 			"name alphabets incl. illegal names, string cell alphabets (\"\", nil, NUL, invalid UTF-8, 300 bytes); and every Select sequence, Drop subset, Slice bound pair and Copy pair on 7 index shapes. " +
